@@ -73,7 +73,9 @@ def malformed_range(rng):
     if k == 5:
         return rng.choice(['99999999999999999999', '1-99999999999999999999', '1-5x99999999999999999999',
                            '-9223372036854775809', '9223372036854775808', '9223372036854775807',
-                           '-9223372036854775808', '1,9223372036854775808']), 'bigint'
+                           '-9223372036854775808', '1,9223372036854775808',
+                           '99999999999999999999-3', '9223372036854775808-5', '-9223372036854775809--3', '1,99999999999999999999-3',
+                           '99999999999999999999-3x2', '9223372036854775808 - 2#', '5-99999999999999999999y2', '99999999999999999999-1:3']), 'bigint'
     if k == 6:
         return rng.choice(['1-5x0', '1-5y0', '1-5:0', '5-1x0', '1-5x-0', '1-5x00', '3,1-5y0']), 'zero-step'
     if k == 7:
@@ -142,6 +144,9 @@ def basename(rng):
         return stem + '_'
     if k < 0.6:
         return stem + rng.choice(['x', 'y', ':', ',', 'x.', 'v2_', 'v2.', '.v003.', '_1-5_', '.x', '-'])
+    if k < 0.615:
+        # a backslash is an ordinary character of a POSIX file name
+        return stem + rng.choice(['\\x.', '\\', 'a\\b_', '\\.v2.'])
     if k < 0.63:
         # blanks before the range (a blank cannot be part of a range, so these stay unambiguous)
         return stem + rng.choice([' 2 ', ' - ', '2 - ', ' ', '_v2 ', ' -'])
